@@ -90,6 +90,12 @@ fn start_server(
     if let Some(vp) = crate::api::version_policy(sp) {
         b = b.version_policy(vp);
     }
+    if sp.tls {
+        b = b.tls(Some(dropshot::ConfigTls::AsBytes {
+            certs: crate::client_tls::CERT_PEM.as_bytes().to_vec(),
+            key: crate::client_tls::KEY_PEM.as_bytes().to_vec(),
+        }));
+    }
     b.start().map_err(|e| format!("server start: {e}"))
 }
 
@@ -387,6 +393,8 @@ pub fn run_plan(plan: &Plan) -> Outcome {
                 }
                 if cp.kind == ConnKind::H2 {
                     crate::client_h2::run_conn_h2(net, world, sim_addr(), cp).await
+                } else if cp.kind == ConnKind::Tls {
+                    crate::client_tls::run_conn_tls(net, world, sim_addr(), cp).await
                 } else {
                     run_conn(net, world, sim_addr(), cp).await
                 }
@@ -437,13 +445,13 @@ pub fn run_plan(plan: &Plan) -> Outcome {
         // Final health probe on a fresh connection.
         let mut health = None;
         if plan.final_health {
-            let h = run_conn(
-                net.clone(),
-                world.clone(),
-                sim_addr(),
-                health_conn(HEALTH_NONCE),
-            )
-            .await;
+            let mut hc = health_conn(HEALTH_NONCE);
+            let h = if plan.server.tls {
+                hc.kind = ConnKind::Tls;
+                crate::client_tls::run_conn_tls(net.clone(), world.clone(), sim_addr(), hc).await
+            } else {
+                run_conn(net.clone(), world.clone(), sim_addr(), hc).await
+            };
             health = Some(h);
         }
         finish.notify_one();
